@@ -118,6 +118,8 @@ Kill(e) ==
        <<"RetireIsOldest", "C03", ~(hit /\ sig = TERM /\ ~Stopping) \/ olderLive = {}>>,
        \* the timeout scan only signals workers whose heartbeat is older than the timeout
        <<"MurderOnlyStale", "C11", ~(hit /\ sig \in {ABRT, KILL} /\ ~Stopping) \/ stale>>,
+       \* a hung worker is aborted first and killed only if it ignores that
+       <<"AbortBeforeKill", "C11", ~(hit /\ sig = KILL /\ ~Stopping) \/ ABRT \in ps[p].sent>>,
        \* while serving (reload included) a healthy worker only ever gets TERM
        <<"OldOnlyTermed", "C10", ~(hit /\ ~Stopping /\ sig \in {QUIT, ABRT, KILL}) \/ (sig # QUIT /\ stale)>>,
        \* reload: an old worker is retired only when its replacement has been forked
